@@ -59,16 +59,16 @@ def characters(check, tier):
     """positions next to characters that take no column or two (combining marks, joiners, NUL, double-width): offsets count characters"""
     import itertools
     maxlen = 4 if tier == "thorough" else 3
-    alph = ["a", "\u0301", "\uff25", "\x00", "\u200d"]
+    alph = ["a", "\u0301", "\uff25", "\x00", "\u200d", "\ufeff", "\udce9"]
     s = Suite(check, "C09.characters", f"every text of length <= {maxlen} over {{narrow, combining accent, double-width, NUL, zero-width joiner}} as one run and "
               "cut into two runs at every position x new values 'X', '', a combining accent, a formatted run x every 0<=start<=end<=len and end "
               "omitted: the sidecar contract of splice / append at run time (offsets count characters, whatever their width)",
               bound=f"length<={maxlen}")
-    news = ["X", "", "\u0301", FmtStr(Chunk("\uff25\u0301", {"bg": 44}))]
+    news = ["X", "", "\u0301", FmtStr(Chunk("\uff25\u0301", {"bg": 44})), "\ufeffq", "\ud83d\ude00"]
     for n in range(1, maxlen + 1):
         for p in itertools.product(alph, repeat=n):
             t = "".join(p)
-            if not any(ord(c) in (0x301, 0xff25, 0, 0x200d) for c in t):
+            if not any(ord(c) in (0x301, 0xff25, 0, 0x200d, 0xfeff, 0xdce9) for c in t):
                 continue
             for cut in range(0, n):
                 f = FmtStr(Chunk(t, {"fg": 31})) if cut == 0 else FmtStr(Chunk(t[:cut], {"fg": 31}), Chunk(t[cut:], {"bold": True}))
